@@ -10,7 +10,7 @@ RULE = ('Cases = target (return value / echo of args+kwargs / raise) x value sha
         'strings from 0 B to 4 MiB straddling the drawn pipe / TCP capacity) x exception classes with arguments x {constructor, '
         'Worker.create} x {run None/True/False, target None}; thread, process and remote worker are created in the same run '
         'under one schedule and compared with the direct call and with each other.')
-ASSUMPTIONS = ['fault-free except segmentation, small buffers, latency, a stalled (slow) parent-side receiver thread', 'classes defined in an importable module only '
+ASSUMPTIONS = ['fault-free except segmentation, small buffers, latency, a stalled (slow) parent-side receiver thread, the calling process stopped and continued while it receives', 'classes defined in an importable module only '
                '(per-process __main__ re-execution is a stub)']
 
 SIZES = [0, 1, 100, 4095, 4096, 65535, 65536, 65537, 70000, 95232, 100000, 300000, 1 << 20, 4 << 20]
@@ -42,6 +42,11 @@ def gen_case(ctx, rng, i, tag='random', big_bias=0.35):
         # receives / rebuilds the result (the remote process may well be gone by then)
         fault = {'kind': 'stall', 'role': 'RemoteWorker._run_frontend', 'qualname': rng.choice(['recv_msg', 'RemoteWorker._fetch_results']),
                  'occ': rng.randrange(1, 75), 'duration': rng.choice([0.3, 3.0])}
+    elif rng.random() < 0.3:
+        # the calling process is stopped and continued (job control, a debugger attaching, a frozen container) while the frontend
+        # thread of the remote worker is blocked receiving: its system call is interrupted, possibly in the middle of a message
+        fault = {'kind': 'stopcont', 'role': 'RemoteWorker._run_frontend', 'on_block': 'recv', 'occ': rng.randrange(1, 10),
+                 'duration': rng.choice([0.01, 0.2])}
     factory = rng.choice(['ctor', 'create'])
     return {'kind': 'all', 'spec': spec, 'mode': mode, 'factory': factory, 'order': rng.sample(['thread', 'process', 'remote'], 3),
             'concurrent': rng.random() < 0.5, 'policy': pol, 'knobs': knobs, 'sched_seed': ctx.case_seed(tag, i),
